@@ -205,3 +205,83 @@ def check_right_links(prog, chk, rule_id):
                "signature chain %s vs extender chain %s (equal sibling pairs %s): expected %s, source gives (%s, error code %s, status %s)%s"
                % (S or "-", E or "-", sorted(eq), "OK" if want == "OK" else "FAIL/CAL-04", names.get(got[0], got[0]), got[1], got[2],
                   "; unexpected comparison operands %s" % unknown if unknown else ""), loc=fn.loc(), fn=fn)
+
+
+def check_metadata(prog, chk, rule_id):
+    """AggregationChainMetaDataVerification (INT-11) over explicit metadata records: with a padding element the record is accepted only
+    if the padding is the first element, tag 0x1E, TLV8, N and F set, value 01 or 01 01, and the record length is even; without padding
+    only if the record cannot be read as an imprint."""
+    import itertools
+    from ksirules.interp import TOP, Interp, Ptr, inline_model, list_overrides
+    from ksirules.model import lvalue_key, strip
+    from ksirules.ruletable import succeed_model_named
+    fn = prog.fn(PFX + "AggregationChainMetaDataVerification", "verification_rule.c")
+    ip, rp = fn.params[0]["n"], fn.params[1]["n"]
+    K = prog.const
+    OKC, FAIL = K("KSI_VER_RES_OK"), K("KSI_VER_RES_FAIL")
+    INT11 = K("KSI_VER_ERR_INT_11")
+    T16 = 0x80
+
+    def scenario(pad, rec_len, alg_first=None, dup=False):
+        """pad: None or dict(tag, tlv16, nc, fwd, val=[bytes], first=True)"""
+        lists = {"CH": [Ptr("chain0")], "LL": [Ptr("link0")], "SUB": [Ptr("FIRST")]}
+        length, element_at = list_overrides(lists)
+        inputs = {ip: Ptr("info"), rp: Ptr("result"), "info->ctx": Ptr("ctx"), "info->signature": Ptr("sig"), "sig->aggregationChainList": Ptr("CH"),
+                  "chain0->chain": Ptr("LL"), "link0->metaData": Ptr("MD"), "MD->impl": Ptr("MDI"), "MDI->subList": Ptr("SUB"),
+                  "MDI->ftlv.dat_len": rec_len, "MDI->ftlv.hdr_len": 2, "MDI->ptr": Ptr("MBUF"), "MBUF[2]": alg_first if alg_first is not None else 0x7e}
+        first = pad if (pad and pad.get("first", True)) else {"tag": 0x01, "tlv16": 0, "nc": 0, "fwd": 0, "val": [0x41]}
+        hdr = 4 if first["tlv16"] else 2
+        inputs.update({"FIRST->ftlv.tag": first["tag"], "FIRST->ftlv.is_nc": first["nc"], "FIRST->ftlv.is_fwd": first["fwd"],
+                       "FIRST->ftlv.dat_len": len(first["val"]), "FIRST->ftlv.hdr_len": hdr, "FIRST->ptr": Ptr("PBUF"),
+                       "PBUF[0]": (T16 if first["tlv16"] else 0) | (0x40 if first["nc"] else 0) | (0x20 if first["fwd"] else 0) | (first["tag"] & 0x1f)})
+        for k, b in enumerate(first["val"]):
+            inputs["PBUF[%d]" % (hdr + k)] = b
+
+        def getel(I, p, node, args):
+            out = strip(node["a"][2])
+            if args[1] != 0x1E:
+                return TOP
+            I.write(p, lvalue_key(out["e"], I.fn), Ptr("PADREF") if pad else 0)
+            return K("KSI_INVALID_STATE") if dup else 0
+
+        def getter(field):
+            def g(I, p, node, args):
+                out = strip(node["a"][1])
+                I.write(p, I.canon(p, I.key_of(p, out["e"])), I.read(p, "%s->%s" % (args[0].what, field)) if isinstance(args[0], Ptr) else TOP)
+                return 0
+            return g
+        ov = {"KSI_AggregationHashChainList_length": length, "KSI_AggregationHashChainList_elementAt": element_at,
+              "KSI_HashChainLinkList_length": length, "KSI_HashChainLinkList_elementAt": element_at,
+              "KSI_TlvElementList_elementAt": element_at, "KSI_TlvElement_getElement": getel,
+              "KSI_AggregationHashChain_getChain": getter("chain"), "KSI_HashChainLink_getMetaData": getter("metaData"),
+              "KSI_getHashLength": lambda I, p, n, a: {1: 32, 0: 20}.get(a[0], 0) if isinstance(a[0], int) else TOP,
+              "KSI_TlvElement_free": lambda I, p, n, a: TOP}
+        inl = inline_model(prog, {"metaDataPadding_verify"}, fallback=succeed_model_named(prog, ov))
+        I = Interp(fn, inputs=inputs, call_model=inl, on_unknown="stop", prog=prog, loop_bound=4)
+        return I.run()
+
+    good = {"tag": 0x1E, "tlv16": 0, "nc": 1, "fwd": 1, "val": [1]}
+    cases = [("padding 01", dict(good), 4, None, False, True), ("padding 01 01", dict(good, val=[1, 1]), 6, None, False, True),
+             ("padding empty", dict(good, val=[]), 4, None, False, False), ("padding 02", dict(good, val=[2]), 4, None, False, False),
+             ("padding 01 02", dict(good, val=[1, 2]), 6, None, False, False), ("padding 02 01", dict(good, val=[2, 1]), 6, None, False, False),
+             ("padding 01 01 01", dict(good, val=[1, 1, 1]), 6, None, False, False),
+             ("padding TLV16", dict(good, tlv16=1), 6, None, False, False), ("padding without N", dict(good, nc=0), 4, None, False, False),
+             ("padding without F", dict(good, fwd=0), 4, None, False, False), ("padding not first", dict(good, first=False), 6, None, False, False),
+             ("record length odd", dict(good), 5, None, False, False), ("two paddings", dict(good), 6, None, True, False),
+             ("no padding, not an imprint", None, 10, 0x7e, False, True), ("no padding, reads as SHA-256 imprint", None, 33, 1, False, False),
+             ("no padding, algorithm id but other length", None, 30, 1, False, True), ("no padding, reads as SHA-1 imprint", None, 21, 0, False, False)]
+    for name, pad, rec_len, alg, dup, want_ok in cases:
+        paths = scenario(pad, rec_len, alg, dup)
+        chk.paths += len(paths)
+        und = [u for q in paths for u in q.undetermined]
+        if und or len(paths) != 1:
+            raise AnalysisBroken("MetaDataVerification: evaluation not determined for %s: %s" % (name, und[:1]))
+        q = paths[0]
+        rc = [s[2] for s in q.stores("result->resultCode")]
+        ec = [s[2] for s in q.stores("result->errorCode")]
+        got = (rc[-1] if rc else None, ec[-1] if ec else None, q.ret)
+        exp = (OKC, K("KSI_VER_ERR_NONE"), 0) if want_ok else (FAIL, INT11, 0)
+        chk.ob(rule_id, "MetaData[%s]" % name, got == exp,
+               "metadata record (%d bytes) %s: expected %s, source gives (result %s, error code %s, status %s)"
+               % (rec_len, "with %s" % ({k: v for k, v in pad.items()} if pad else "no padding element"), "OK" if want_ok else "FAIL/INT-11",
+                  {OKC: "OK", FAIL: "FAIL"}.get(got[0], got[0]), got[1], got[2]), loc=fn.loc(), fn=fn)
